@@ -869,7 +869,7 @@ class TermBuilder:
             body = body[1:]
         if not body or not isinstance(body[-1], ast.Return) or body[-1].value is None:
             return None
-        if not all(isinstance(st, ast.Assign) for st in body[:-1]) or len(body) > 6:
+        if not all(isinstance(st, ast.Assign) for st in body[:-1]) or len(body) > 24:
             return None
         if any(a[0] == 'star' for a in args) or any(k == '**' for k, _ in kws):
             return None
